@@ -2,7 +2,7 @@
     against [print_exact] (round-half-even everywhere) and, when a rounding argument is within
     float noise of a tie, against the set of outputs for the two roundings of that step. *)
 From Coq Require Import ZArith QArith Bool List.
-From QV Require Import Base.CaseLib Model.Printing.
+From QV Require Import Base.CaseLib Model.Printing Model.PrintingObj.
 Import ListNotations.
 
 (** what the harness parsed from the printed text: the output fields plus the number of decimals
@@ -49,3 +49,29 @@ Fixpoint report_aux (f : pcase -> list nat) (l : list pcase) (i : nat) : list (n
   | c :: l' => map (fun j => (i, j)) (f c) ++ report_aux f l' (S i)
   end.
 Definition report (f : pcase -> list nat) (l : list pcase) := report_aux f l 0.
+
+(** ** object histories: the model state follows the operations, every observed print is compared
+    with the printer of the model's CURRENT state *)
+Definition hcase := (ostate * list (oop * obs))%type.
+
+Fixpoint check_hist (any : bool) (st : ostate) (l : list (oop * obs)) (i : nat) : list nat :=
+  match l with
+  | [] => []
+  | (op, x) :: l' =>
+      match op with
+      | OPrint =>
+          let k := (s_style st, c_mode (s_cfg st), c_n (s_cfg st), x) in
+          let ok := if any then check_any1 (s_value st) (s_error st) k else check_exact1 (s_value st) (s_error st) k in
+          (if ok then [] else [i]) ++ check_hist any st l' (S i)
+      | _ => check_hist any (step st op) l' (S i)
+      end
+  end.
+Definition bad_hist_exact (c : hcase) : list nat := check_hist false (fst c) (snd c) 0.
+Definition bad_hist_any (c : hcase) : list nat := check_hist true (fst c) (snd c) 0.
+
+Fixpoint hreport_aux (f : hcase -> list nat) (l : list hcase) (i : nat) : list (nat * nat) :=
+  match l with
+  | [] => []
+  | c :: l' => map (fun j => (i, j)) (f c) ++ hreport_aux f l' (S i)
+  end.
+Definition hreport (f : hcase -> list nat) (l : list hcase) := hreport_aux f l 0.
